@@ -48,6 +48,9 @@ type Expt struct {
 // Call the function with the arguments provided.
 func (f *Expt) Call(s *slip.Scope, args slip.List, depth int) (result slip.Object) {
 	slip.CheckArgCount(s, depth, f, args, 2, 2)
+	// An integer held in a bignum or in a ratio with a denominator of one is
+	// an integer.
+	args = slip.List{canonicalNumber(args[0]), canonicalNumber(args[1])}
 	if pow, ok := args[1].(slip.Fixnum); ok && 0 <= pow {
 		// A rational raised to a non-negative integer power is exact.
 		bp := big.NewInt(int64(pow))
